@@ -92,6 +92,13 @@ type State struct {
 	effects Term // ghost effect counter / log (file-system writes)
 	dirtyOld bool // some object that existed at unit entry may have been written (or havocked)
 	dirty    map[string]bool // ... per heap name
+	calls    map[string]*callRec // call history of the unit's own function (ghost): last call per callee name
+}
+
+type callRec struct {
+	called  Term
+	args    []Term
+	results []Term
 }
 
 type cellKey2 struct {
@@ -117,6 +124,12 @@ func (s *State) clone() *State {
 	}
 	for k, v := range s.written {
 		n.written[k] = v
+	}
+	if len(s.calls) > 0 {
+		n.calls = make(map[string]*callRec, len(s.calls))
+		for k, v := range s.calls {
+			n.calls[k] = v
+		}
 	}
 	if len(s.dirty) > 0 {
 		n.dirty = make(map[string]bool, len(s.dirty))
@@ -865,6 +878,15 @@ func (x *Exec) mergeStates(sts []*State) *State {
 	}
 	for _, k := range sortedKeys(hkeys) {
 		k := k
+		// a heap first mentioned by a havoc has no entry version yet: declare it
+		if _, ok := x.initHeap[k]; !ok {
+			for _, s := range sts {
+				if v, ok := s.heaps[k]; ok {
+					x.heap(&State{heaps: map[string]Term{}}, heapID{k, v.Sort})
+					break
+				}
+			}
+		}
 		v, _ := pick(func(s *State) (Term, bool) {
 			if v, ok := s.heaps[k]; ok {
 				return v, true
@@ -878,6 +900,41 @@ func (x *Exec) mergeStates(sts []*State) *State {
 		if v, ok := pick(func(s *State) (Term, bool) { v, ok := s.iters[k]; return v, ok }); ok {
 			res.iters[k] = v
 		}
+	}
+	// call history: per callee name, merge component-wise
+	names := map[string]bool{}
+	for _, s := range sts {
+		for k := range s.calls {
+			names[k] = true
+		}
+	}
+	for _, k := range sortedKeys(names) {
+		var tmpl *callRec
+		for _, s := range sts {
+			if r := s.calls[k]; r != nil {
+				tmpl = r
+			}
+		}
+		nr := &callRec{args: make([]Term, len(tmpl.args)), results: make([]Term, len(tmpl.results))}
+		get := func(s *State) *callRec {
+			if r := s.calls[k]; r != nil {
+				return r
+			}
+			return &callRec{called: tFalse, args: tmpl.args, results: tmpl.results}
+		}
+		nr.called, _ = pick(func(s *State) (Term, bool) { return get(s).called, true })
+		for i := range tmpl.args {
+			i := i
+			nr.args[i], _ = pick(func(s *State) (Term, bool) { return get(s).args[i], true })
+		}
+		for i := range tmpl.results {
+			i := i
+			nr.results[i], _ = pick(func(s *State) (Term, bool) { return get(s).results[i], true })
+		}
+		if res.calls == nil {
+			res.calls = map[string]*callRec{}
+		}
+		res.calls[k] = nr
 	}
 	for _, s := range sts {
 		if s.dirtyOld {
